@@ -626,6 +626,11 @@ fn build_date_to(pair: Pair<Rule>, from: ds::Date) -> Result<ds::Date> {
 
                         if month == ds::Month::January {
                             if let Some(x) = year.as_mut() {
+                                if *x >= 9999 {
+                                    // The range continues after the last supported year.
+                                    return Ok(ds::Date::ymd(31, ds::Month::December, 9999));
+                                }
+
                                 *x += 1
                             }
                         }
